@@ -155,6 +155,49 @@ func emitTyped(cw *caseWriter, f, ty string, v interface{}) {
 	cw.emit("typed "+f+" "+ty+" "+s, true, "typed", "C13", f, ty, s, extStr(ext), written, back1, back2)
 }
 
+// emitImp: row-level import (C10, last sentence): ImportAtKey of v into the column c declared (f, ty) of a
+// freshly created row; after a successful import the raw value is nil or of exactly the declared raw type.
+//
+//	imp \t C10 \t <format> \t <ty> \t <Dyn v> \t <ext> \t <ok <Dyn raw> | err <class> | panic …>
+func emitImp(cw *caseWriter, f, ty string, v interface{}) {
+	t := jsonline.NewTemplate().With("c", formatByName[f], tySample[ty])
+	ext := map[string]string{}
+	extForValue(v, ext)
+	if sv, ok := v.(string); ok {
+		extForText(sv, ext)
+	}
+	if nv, ok := v.(json.Number); ok {
+		extForText(string(nv), ext)
+	}
+	impl := "-"
+	pan := guard(func() {
+		row := t.CreateRowEmpty()
+		if err := row.ImportAtKey("c", v); err != nil {
+			impl = "err " + classify(err)
+			return
+		}
+		got, _ := row.Get("c")
+		extForValue(got, ext)
+		impl = "ok " + dynStr(got)
+	})
+	if pan != "" {
+		impl = "panic " + strings.ReplaceAll(strings.ReplaceAll(pan, "\t", " "), "\n", " ")
+	}
+	cw.count("imp:" + f + ":" + strings.SplitN(impl, " ", 2)[0])
+	s := dynStr(v)
+	cw.emit("imp "+f+" "+ty+" "+s, true, "imp", "C10", f, ty, s, extStr(ext), impl)
+}
+
+// impValues: what a column may be asked to import — every JSON scalar as the reader delivers it, arrays,
+// and Go values handed through the API.
+func impValues() []interface{} {
+	return []interface{}{nil, true, false, json.Number("0"), json.Number("1"), json.Number("-1"), json.Number("300"), json.Number("1.5"), json.Number("1e40"),
+		json.Number("9223372036854775808"), json.Number("1632518460"), "", "abc", "12", "-7", "1.5", "true", "AQ==", "AAAAAAAAAAA=", "AQIDBA==", "2021-09-24",
+		"2021-09-24T21:21:00Z", "2021-09-24T21:21:00+05:30", []interface{}{json.Number("1")}, []interface{}{}, map[string]interface{}{"a": json.Number("1")},
+		int(7), int8(-3), uint16(65535), int64(math.MinInt64), uint64(math.MaxUint64), float64(1.5), float32(2), float64(1e300), math.NaN(), []byte{1}, []byte{1, 2, 3, 4, 5, 6, 7, 8},
+		[]byte("12"), time.Unix(1632518460, 0).UTC(), struct{ A int }{1}, (*int)(nil)}
+}
+
 func defaultTyOf(f string) string {
 	switch f {
 	case "string":
